@@ -415,9 +415,14 @@ def run(ctx):
     ctx.assumptions.append("C09 monitors: two converged runs are compared with tolerances derived from the solver "
                            "tolerances (see design_notes/C09.md); pairs on different branches of a pump / compressor law "
                            "are not compared")
+    import vlib
     for name, fn in GEN:
         try:
-            ctx.gen(name, fn())
+            text = fn()
+            path = os.path.join(vlib.COQ, "Gen", name + ".v")
+            # an unchanged file needs no write and hence no wait for the shared build lock
+            if not (os.path.exists(path) and open(path).read() == text):
+                ctx.gen(name, text)
         except Exception as e:
             ctx.broken("translator", name, repr(e))
     import time
